@@ -398,6 +398,9 @@ pub fn lexeme_variants() -> Space {
         ("long-identifier-in-argument", "package p; interface I { void f(int a_very_long_identifier_name_that_goes_on_and_on_and_on_for_ever = 3); }".into()),
         ("long-string-in-enum", "package p; enum E { A, \"a very long string literal, longer than fifty characters for sure\", B }".into()),
         ("long-annotation-after-annotation", "package p; parcelable P { @A @B_with_a_rather_long_annotation_name_to_make_the_message_long = int x; }".into()),
+        ("very-long-string-after-annotation", format!("package p; @A \"{}\" interface I {{ }}", "long ".repeat(60))),
+        ("very-long-identifier-at-member-start", format!("package p; interface I {{ @A {} = 3; void f(); }}", "x".repeat(260))),
+        ("very-long-string-as-argument-name", format!("package p; interface I {{ void f(int \"{}\"); }}", "s".repeat(300))),
         ("comment-ended-by-cr", "package p; parcelable P { } // end\r".into()),
         ("comment-ended-by-cr-then-code", "package p; // c\rparcelable P { }".into()),
         ("map-three-parameters", "package p; parcelable P { Map<String, String, String> m; }".into()),
